@@ -11,11 +11,11 @@
   What remains a hypothesis: the FLOAT text law (`rt` = shortest decimal, then `ParseFloat(·, 32)`).
   Proofs: `PolyVerif/Lemmas/ObjText.lean`.
 -/
-import PolyVerif.Lemmas.ObjText
+import PolyVerif.Lemmas.ObjTextCompose
 
 namespace PolyVerif
 namespace C05
-open Obj ObjText ObjTextL
+open Obj ObjL ObjText ObjTextL
 
 /-- **`Atoi (Itoa n) = n`** for every int64 `n`. -/
 theorem parseInt_showInt (n : Int) (hlo : -2 ^ 63 ≤ n) (hhi : n < 2 ^ 63) : parseInt (showInt n) = some n := by
@@ -78,6 +78,31 @@ theorem showCorner_no_blank (c : Corner) :
   have := congrArg String.toList h
   simp only [String.toList_ofList] at this
   exact h2 this
+
+/-- **C05 clause 1 through the text layer with the CONCRETE index printer / parser** — only the float law is
+    left as a parameter.  Corner tokens are printed by `showCorner` (`strconv.Itoa` per index, `/` separators)
+    and parsed by `parseCorner` (`parseObjFaceComponent` with `strconv.Atoi`): the functions `driver_c05` runs.
+    Every scalar comes back from the text as `rt x` (real code: shortest decimal, then `ParseFloat(·, 32)`).
+    For every non-empty list of named well-formed triangle meshes whose attribute arrays together hold fewer
+    than 2^63 entries each (any scene a 64-bit process can hold), reading the written text succeeds with
+    `RoundTripsCarry rt`, and with the strict `RoundTrips rt` when no material-less mesh follows one with
+    ranges.  (`obj_roundtrip_text` with its hypothesis `hshow` discharged.) -/
+theorem obj_roundtrip_text_ints {α : Type} [DecidableEq α] (rt : α → α) (matFile : String) (ms : List (String × Mesh α))
+    (hne : ms ≠ []) (hwf : ∀ p ∈ ms, WFMesh p.2) (hnb : NonemptyButLast ms)
+    (hsv : (ms.flatMap fun p => optList p.2.pos).length < 2 ^ 63)
+    (hst : (ms.flatMap fun p => optList p.2.uv).length < 2 ^ 63)
+    (hsn : (ms.flatMap fun p => optList p.2.nrm).length < 2 ^ 63) :
+    ∃ ls gs libs, writeObj matFile ms = .ok ls ∧
+      readObj parseCorner (ls.map (mapLine showCorner rt)) = .ok (gs, libs) ∧
+      RoundTripsCarry rt none ms (gs.map toMesh) = true ∧
+      (NoMatlessAfterMat none ms → RoundTrips rt ms (gs.map toMesh) = true) :=
+  ObjTextL.obj_roundtrip_text_ints rt matFile ms hne hwf hnb hsv hst hsn
+
+/-- the size hypotheses are satisfiable (any real scene): the mixed-attribute witness -/
+example : (mixedWitness.flatMap fun p => optList p.2.pos).length < 2 ^ 63 ∧
+    (mixedWitness.flatMap fun p => optList p.2.uv).length < 2 ^ 63 ∧
+    (mixedWitness.flatMap fun p => optList p.2.nrm).length < 2 ^ 63 := by
+  refine ⟨?_, ?_, ?_⟩ <;> decide
 
 end C05
 end PolyVerif
